@@ -67,8 +67,10 @@ def coq_sources():
     return sorted(glob.glob(os.path.join(COQ, "theories", "**", "*.v"), recursive=True))
 
 
-def build_coq(clean=False):
-    """Full .vo build of the Coq development. Returns (ok, log, failing_file)."""
+def build_coq(clean=False, target=None):
+    """Full .vo build of the Coq development. Returns (ok, log, failing_file).
+    A table regenerated from a mutated source may break ANOTHER property's obligation; with a target
+    (theories/Properties/Cxx.vo) the build keeps going (-k) and succeeds iff that target is built."""
     with Lock("coq"):
         from . import gen
         gen.regenerate_all()
@@ -80,7 +82,13 @@ def build_coq(clean=False):
             rc, out = sh(["coq_makefile", "-f", "_CoqProject", "-o", "Makefile"], cwd=COQ)
             if rc != 0:
                 return False, out, None
-        rc, out = sh(["timeout", "3000", "make", "-j16"], cwd=COQ, timeout=3100)
+        rc, out = sh(["timeout", "3000", "make", "-j16"] + (["-k"] if target else []), cwd=COQ, timeout=3100)
+        if rc != 0 and target:
+            rc2, out2 = sh(["timeout", "3000", "make", target], cwd=COQ, timeout=3100)
+            if rc2 == 0:
+                rc, out = 0, out + "\n(other targets failed; %s is built)\n" % target
+            else:
+                out = out2
         with open(os.path.join(WORK, "coq-build.log"), "w") as f:
             f.write(out)
         failing = None
@@ -237,7 +245,8 @@ class Ctx:
     # ---- proofs
     def proofs(self, extra_obligations=0):
         """Build the Coq development, count the property's theorems, record assumptions."""
-        ok, out, failing = build_coq(clean=(self.tier == "thorough" and os.environ.get("VERIF_NO_CLEAN") != "1"))
+        ok, out, failing = build_coq(clean=(self.tier == "thorough" and os.environ.get("VERIF_NO_CLEAN") != "1"),
+                                     target="theories/Properties/%s.vo" % self.prop)
         names = property_theorems(self.prop)
         self.coverage["obligations"] = len(names) + extra_obligations
         self.coverage["theorems"] = names
